@@ -73,12 +73,23 @@ class FnSpec:
 def _find_stmt(body_toks, text_pat, nth):
     """Find nth statement in body_toks whose leading tokens equal the tokens of text_pat.
     Returns (first_tok_index, last_tok_index) of the statement."""
-    pt = [t.text for t in tokenize(text_pat)]
+    # an identifier followed by `*` in the anchor text is a prefix wildcard: `retain_tags_*`
+    raw = [t.text for t in tokenize(text_pat)]
+    pt = []
+    for t in raw:
+        if t == '*' and pt and isinstance(pt[-1], str) and pt[-1].replace('_', 'a').isalnum():
+            pt[-1] = (pt[-1],)
+        else:
+            pt.append(t)
+
+    def _eq(tok, p):
+        return tok.startswith(p[0]) if isinstance(p, tuple) else tok == p
     hits = []
     for i in range(len(body_toks)):
         if i > 0 and body_toks[i - 1].text not in ('{', '}', ';'):
             continue
-        if [t.text for t in body_toks[i:i + len(pt)]] == pt:
+        seg = [t.text for t in body_toks[i:i + len(pt)]]
+        if len(seg) == len(pt) and all(_eq(a, b) for a, b in zip(seg, pt)):
             hits.append(i)
     if len(hits) < nth or not hits:
         raise LostAnchor('statement anchor `%s`#%d not found' % (text_pat, nth))
